@@ -276,6 +276,9 @@ func checkC03(c *Ctx) {
 	c.checkSingleBucket("O5 open-ends")
 	c.checkBucketStorage("O5 storage-fields", fVal, fDur)
 	c.checkPairAccessors("O5 pair-accessors")
+	// O6: a histogram uses the bounds it was created with (shared with C20 O4)
+	c.checkBucketCacheGet("O6 own-buckets")
+	c.checkBucketsEqual("O6 own-buckets-equal")
 }
 
 // checkSearchIndex: A12.
